@@ -3,6 +3,7 @@ package main
 // Mapping of Go types to SMT sorts, zero values, range typing, heap array names.
 
 import (
+	"hash/fnv"
 	"fmt"
 	"go/types"
 	"math/big"
@@ -63,8 +64,12 @@ func (tm *TypeMap) structName(t types.Type) string {
 	if n, ok := tm.anonNames[key]; ok {
 		return n
 	}
+	// the name must not depend on the order in which types are met: sort strings computed by the (shared) write-set
+	// analysis are compared with the ones of the function being verified
 	tm.anon++
-	n := fmt.Sprintf("S_anon%d", tm.anon)
+	h := fnv.New32a()
+	h.Write([]byte(key))
+	n := fmt.Sprintf("S_anon%08x", h.Sum32())
 	tm.anonNames[key] = n
 	return n
 }
